@@ -42,6 +42,8 @@ THEOREMS = [
     'AbacusVerif.Power.nmode_particle_free',
     'AbacusVerif.Power.thread_independent',
     'AbacusVerif.Power.codedPhase_unit',
+    'AbacusVerif.Power.codedW_pos',
+    'AbacusVerif.Power.calc_power_symmetries',
 ]
 DRIVER = 'drv_c13'
 
@@ -246,7 +248,7 @@ def stage_rfftn(ctx):
 def stage_fieldfft(ctx, ps):
     rng = ctx.rng
     reqs, metas = [], []
-    ntrial = ctx.pick(40, 320)
+    ntrial = ctx.pick(32, 320)
     for t in range(ntrial):
         n = int(rng.integers(2, 7))
         paste = ('TSC', 'CIC')[t % 2]
@@ -654,7 +656,7 @@ def run(ctx):
     stage_rawpower(ctx, ps)
     stage_fieldfft(ctx, ps)
     warm_up(ps)
-    stage_metamorphic(ctx, ps, ctx.pick(24, 320))
+    stage_metamorphic(ctx, ps, ctx.pick(20, 320))
     ctx.extra['bounds'] = dict(RTOL_META=RTOL_META, RTOL_FFT32=RTOL_FFT32, RTOL_FFT64=RTOL_FFT64,
                                RTOL_FFT64_W=RTOL_FFT64_W, ATOL_W=ATOL_W, RTOL_RFFTN=RTOL_RFFTN)
     ctx.extra['scope'] = ('calc_power: nmesh 4..16 (odd and even), TSC/CIC, compensated, interlaced, lin/log k bins, '
